@@ -1426,9 +1426,14 @@ sf_command	(SNDFILE *sndfile, int command, void *data, int datasize)
 			{	psf->error = SFE_BAD_COMMAND_PARAM ;
 				return SF_FALSE ;
 				} ;
-			if (psf->cues == NULL && (psf->cues = psf_cues_dup (data, datasize)) == NULL)
-			{	psf->error = SFE_MALLOC_FAILED ;
-				return SF_FALSE ;
+			{	SF_CUES *new_cues = psf_cues_dup (data, datasize) ;
+
+				if (new_cues == NULL)
+				{	psf->error = SFE_MALLOC_FAILED ;
+					return SF_FALSE ;
+					} ;
+				free (psf->cues) ;
+				psf->cues = new_cues ;
 				} ;
 			return SF_TRUE ;
 
